@@ -53,11 +53,13 @@ structure St where
   -- shlist
   sh : SHList.Mem := SHList.init (SHList.init SHList.emptyMem 1024) (1024 + 16)
   shOff : Nat := 0
+  shH : Nat := 0                       -- layout: slot k lives at region offset shH + shStride * k
+  shStride : Nat := 16
+  shN : Nat := 64                      -- number of slots; region length = shH + shStride * shN
   shSt : Store := Store.empty          -- per slot: 0 uninit, 1 detached, 2 + h member of head h
 
 def shArena : Nat := 1024
 def shSlots : Nat := 64
-def shLen : Nat := shSlots * 16
 def shArenaLen : Nat := 8192
 
 /-! ## hashtab -/
@@ -366,8 +368,9 @@ def dlStep (s : St) (w : List String) : St × String :=
 
 /-! ## SHList -/
 
-def shAddr (s : St) (slot : Nat) : Nat := shArena + s.shOff + 16 * slot
-def shSlotOf (s : St) (a : Nat) : Nat := (a - (shArena + s.shOff)) / 16
+def shLen (s : St) : Nat := s.shH + s.shStride * s.shN
+def shAddr (s : St) (slot : Nat) : Nat := shArena + s.shOff + s.shH + s.shStride * slot
+def shSlotOf (s : St) (a : Nat) : Nat := (a - (shArena + s.shOff + s.shH)) / s.shStride
 def shFuel : Nat := shSlots + 1
 
 def shHeadStr (s : St) (h : Nat) : String :=
@@ -376,7 +379,7 @@ def shHeadStr (s : St) (h : Nat) : String :=
   s!" H{h}={f.length}:{hx (hashList f)}:{b.length}:{hx (hashList b)}"
 
 def shTail (s : St) : String :=
-  let ih := (List.range shSlots).foldl (fun h i =>
+  let ih := (List.range s.shN).foldl (fun h i =>
     fnvI (fnvI h (s.sh.next.get (shAddr s i))) (s.sh.prev.get (shAddr s i))) fnvInit
   shHeadStr s 0 ++ shHeadStr s 1 ++ s!" ## r={hx ih}"
 
@@ -386,10 +389,21 @@ def shOpt (s : St) : Option Nat → String
 
 def shStep (s : St) (w : List String) : St × String :=
   match w with
+  -- sh layout <h> <stride> <n>: fresh region whose slot k is at byte offset h + stride * k (the node
+  -- embedded in `stride`-byte records; 8-byte aligned like `ptrdiff_t`), both heads initialised
+  | ["layout", h, st, n] =>
+    match h.pn, st.pn, n.pn with
+    | some h, some st, some n =>
+      if h % 8 = 0 && h ≤ 64 && st % 8 = 0 && st ≥ 16 && st ≤ 120 && n ≥ 3 && n ≤ 64 then
+        let s := { s with shOff := 0, shH := h, shStride := st, shN := n, shSt := Store.empty }
+        let s := { s with sh := SHList.init (SHList.init SHList.emptyMem (shAddr s 0)) (shAddr s 1) }
+        (s, "ok" ++ shTail s)
+      else (s, "bad-op")
+    | _, _, _ => (s, "bad-op")
   | ["node", k] =>
     match k.pn with
     | some k =>
-      if k ≥ 2 && k < shSlots && s.shSt.get k ≤ 1 then
+      if k ≥ 2 && k < s.shN && s.shSt.get k ≤ 1 then
         let s := { s with sh := SHList.init s.sh (shAddr s k), shSt := s.shSt.set k 1 }
         (s, "ok" ++ shTail s)
       else (s, "bad-op")
@@ -397,7 +411,7 @@ def shStep (s : St) (w : List String) : St × String :=
   | [op, h, k] =>
     match h.pn, k.pn with
     | some h, some k =>
-      if (op == "app" || op == "pre") && h ≤ 1 && k ≥ 2 && k < shSlots && s.shSt.get k = 1 then
+      if (op == "app" || op == "pre") && h ≤ 1 && k ≥ 2 && k < s.shN && s.shSt.get k = 1 then
         let m := if op == "app" then SHList.append s.sh (shAddr s h) (shAddr s k)
                  else SHList.prepend s.sh (shAddr s h) (shAddr s k)
         let s := { s with sh := m, shSt := s.shSt.set k (2 + h) }
@@ -407,7 +421,7 @@ def shStep (s : St) (w : List String) : St × String :=
   | ["rm", k] =>
     match k.pn with
     | some k =>
-      if k ≥ 2 && k < shSlots && s.shSt.get k ≥ 1 then
+      if k ≥ 2 && k < s.shN && s.shSt.get k ≥ 1 then
         let s := { s with sh := SHList.remove s.sh (shAddr s k), shSt := s.shSt.set k 1 }
         (s, "ok" ++ shTail s)
       else (s, "bad-op")
@@ -415,8 +429,8 @@ def shStep (s : St) (w : List String) : St × String :=
   | ["move", off] =>
     match off.pn with
     | some off =>
-      if off % 8 = 0 && off + shLen ≤ shArenaLen then
-        let m := SHList.relocate s.sh (shArena + s.shOff) shLen (shArena + off)
+      if off % 8 = 0 && off + shLen s ≤ shArenaLen then
+        let m := SHList.relocate s.sh (shArena + s.shOff) (shLen s) (shArena + off)
         let s := { s with sh := m, shOff := off }
         (s, "ok" ++ shTail s)
       else (s, "bad-op")
